@@ -174,6 +174,7 @@ def h_utc(name, path, clauses):
                 if not eisdst:
                     ctx.check(tsdt.secs(wall.dst()) == 0, "non-zero dst() where the data marks standard time",
                               key="%s:%d:data-dst" % (name, i), zone=name)
+        if ("c06" in clauses or "c04" in clauses):
             if not ctx.symbolic and i >= 0:
                 # sub-second instants (native, real datetimes): the last microsecond before the transition that opens this
                 # interval belongs to the previous interval, like the whole second before it
